@@ -760,13 +760,89 @@ func vC03TextOf(v reflect.Value) string {
 	return "?"
 }
 
-func vC03Table(p *Protocol) []vC03Ent {
-	m := reflect.ValueOf(p).Elem().FieldByName("input").FieldByName("transactions")
-	for m.IsValid() && (m.Kind() == reflect.Ptr || m.Kind() == reflect.Interface) && !m.IsNil() {
-		m = m.Elem()
+// The table is found STRUCTURALLY, not by name: among the fields of Protocol and of its
+// struct-typed fields (one level down, e.g. `input`), the map whose key is a number and whose
+// value is text (a string, or a struct/pointer holding one).  A float key is preferred (the
+// transaction id is an AMF0 number); exactly one candidate of the best rank must exist.
+// vC03TablePath is resolved once (TestVerifC03 fails loudly if that is impossible, so that a
+// renamed or restructured table is reported as a broken tie, never as an oracle failure).
+var vC03TablePath []int
+
+func vC03IsNumKind(k reflect.Kind) int {
+	switch k {
+	case reflect.Float32, reflect.Float64:
+		return 2
+	case reflect.Int, reflect.Int8, reflect.Int16, reflect.Int32, reflect.Int64,
+		reflect.Uint, reflect.Uint8, reflect.Uint16, reflect.Uint32, reflect.Uint64:
+		return 1
 	}
-	if !m.IsValid() || m.Kind() != reflect.Map {
-		return []vC03Ent{{math.NaN(), "table-not-found"}}
+	return 0
+}
+
+func vC03IsTextType(t reflect.Type) bool {
+	switch t.Kind() {
+	case reflect.String:
+		return true
+	case reflect.Ptr:
+		return vC03IsTextType(t.Elem())
+	case reflect.Struct:
+		for i := 0; i < t.NumField(); i++ {
+			if t.Field(i).Type.Kind() == reflect.String {
+				return true
+			}
+		}
+	}
+	return false
+}
+
+func vC03FindTable() (path []int, why string) {
+	t := reflect.TypeOf(Protocol{})
+	best, n := 0, 0
+	consider := func(ft reflect.Type, p []int) {
+		if ft.Kind() != reflect.Map {
+			return
+		}
+		rank := vC03IsNumKind(ft.Key().Kind())
+		if rank == 0 || !vC03IsTextType(ft.Elem()) {
+			return
+		}
+		if rank > best {
+			best, n, path = rank, 1, append([]int{}, p...)
+		} else if rank == best {
+			n++
+		}
+	}
+	for i := 0; i < t.NumField(); i++ {
+		ft := t.Field(i).Type
+		consider(ft, []int{i})
+		for ft.Kind() == reflect.Ptr {
+			ft = ft.Elem()
+		}
+		if ft.Kind() == reflect.Struct && ft.PkgPath() == "" { // anonymous struct fields such as input / output
+			for j := 0; j < ft.NumField(); j++ {
+				consider(ft.Field(j).Type, []int{i, j})
+			}
+		}
+	}
+	switch {
+	case n == 0:
+		return nil, "no map field with a numeric key and a text value in Protocol (or one level down)"
+	case n > 1:
+		return nil, fmt.Sprintf("%d candidate map fields for the transaction table", n)
+	}
+	return path, ""
+}
+
+func vC03Table(p *Protocol) []vC03Ent {
+	m := reflect.ValueOf(p).Elem()
+	for _, i := range vC03TablePath {
+		for m.Kind() == reflect.Ptr {
+			m = m.Elem()
+		}
+		m = m.Field(i)
+	}
+	if len(vC03TablePath) == 0 || m.Kind() != reflect.Map {
+		panic("cannot observe the transaction table")
 	}
 	es := []vC03Ent{}
 	for _, k := range m.MapKeys() {
@@ -1013,7 +1089,9 @@ func vC03RunConv(c vSx, res *vC03Res) {
 			if p.kind >= 7 {
 				wantCid = 2
 			}
-			if gs, gc := vC03MsgField(m, "streamID"), vC03MsgField(m, "betterCid"); gs != uint64(uint32(sid)) || gc != wantCid || m.Timestamp != 0 {
+			if !vC03HeaderObservable {
+				// the header fields were renamed: this check is not made (counted in the statistics)
+			} else if gs, gc := vC03MsgField(m, "streamID"), vC03MsgField(m, "betterCid"); gs != uint64(uint32(sid)) || gc != wantCid || m.Timestamp != 0 {
 				res.bad("wire", fmt.Sprintf("burst %d packet %d: arrived on stream %d chunk stream %d timestamp %d, written for stream %d chunk stream %d", bi, j, gs, gc, m.Timestamp, uint32(sid), wantCid))
 			}
 			pk, err, pan := vC03Decode(rcv, m.MessageType, m.Payload)
@@ -1413,11 +1491,26 @@ func vC03Buffered(p *Protocol) int {
 	return int(mth.Call(nil)[0].Int())
 }
 
+// whether the stream id / chunk stream id of a message can be read (by field name; checked once
+// on a probe message whose values are known)
+var vC03HeaderObservable bool
+
+func vC03ProbeHeader() bool {
+	defer func() { recover() }()
+	m := NewStreamMessage(7)
+	mv := reflect.ValueOf(m).Elem()
+	a, b := mv.FieldByName("streamID"), mv.FieldByName("betterCid")
+	if !a.IsValid() || !b.IsValid() {
+		return false
+	}
+	return vC03MsgField(m, "streamID") == 7 && vC03MsgField(m, "betterCid") == 5
+}
+
 // integer value of an unexported numeric field of a message, by name
 func vC03MsgField(m *Message, name string) uint64 {
 	f := reflect.ValueOf(m).Elem().FieldByName(name)
 	if !f.IsValid() {
-		return math.MaxUint64
+		panic("cannot observe the message field " + name)
 	}
 	switch f.Kind() {
 	case reflect.Int, reflect.Int8, reflect.Int16, reflect.Int32, reflect.Int64:
@@ -2751,6 +2844,14 @@ func vC03Gen(r *vRng) vSx {
 func TestVerifC03(t *testing.T) {
 	k := vNewKit(t, "C03")
 	defer k.close()
+	// internal state the oracles read must be observable, otherwise the run is void (a broken
+	// tie), never a verdict
+	var why string
+	if vC03TablePath, why = vC03FindTable(); why != "" {
+		t.Fatalf("cannot observe the transaction table: %s", why)
+	}
+	vC03HeaderObservable = vC03ProbeHeader()
+	k.count("observe", fmt.Sprintf("message-header-fields=%v", vC03HeaderObservable))
 	runOne := func(c vSx) {
 		res := vC03Run(c)
 		idx := k.record(c, res.obs, res.nontrivial)
